@@ -8,6 +8,7 @@ from ..probe import call
 from ..ref import bits, ppm
 
 LEVEL = "exploration"
+BRANCH_TARGETS = ['pyModeS.extra.rtlreader:RtlReader._process_buffer', 'pyModeS.extra.rtlreader:RtlReader._check_preamble', 'pyModeS.extra.rtlreader:RtlReader._check_msg', 'pyModeS.extra.rtlreader:RtlReader._calc_noise']
 TECHNIQUE = 'runtime monitoring: PPM modulator as forward model, exact list equality on the demodulator output, checksum invariant on every returned DF17'
 LEVEL_TEXT = 'Exploration over frame contents, offsets, amplitudes, noise families; regime R1 judged strictly, regime R2 is the recorded finding.'
 LEVEL_RULE = (
